@@ -280,18 +280,20 @@ func cmdCheck(args []string) int {
 		}(i)
 	}
 	wg.Wait()
+	infra := ""
 	for _, e := range errs {
-		if e != "" {
-			fmt.Fprintln(os.Stderr, "INFRA:", e)
-			return 2
+		if e != "" && infra == "" {
+			infra = e // the other workers' reports are still merged and their violations confirmed
 		}
 	}
 
 	// merge
 	total := &harness.WorkerReport{Probes: map[string]int{}, Faults: map[string]int{}, FsOps: map[string]int{},
 		Outcomes: map[string]int{}, Inconclusive: map[string]int{}}
-	infra := ""
 	for _, r := range reports {
+		if r == nil {
+			continue // that worker produced no report (recorded in infra)
+		}
 		total.Runs += r.Runs
 		total.Worlds += r.Worlds
 		total.Steps += r.Steps
@@ -320,10 +322,10 @@ func cmdCheck(args []string) int {
 			infra = r.InfraError
 		}
 	}
-	if infra != "" {
-		fmt.Fprintln(os.Stderr, "INFRA:", infra)
-		return 2
-	}
+	// infrastructure trouble in a worker (a run that hit the real-time watchdog,
+	// a worker that died) ends the check with exit 2 — unless another worker found
+	// a violation that reproduces in a fresh process, which stands on its own
+	// (decided after the confirmation loop below)
 	nontriv, sched, states := map[uint64]struct{}{}, map[uint64]struct{}{}, map[uint64]struct{}{}
 	for i := 0; i < *workers; i++ {
 		harness.ReadHashFile(filepath.Join(scratch, fmt.Sprintf("nontriv-%d.bin", i)), nontriv)
@@ -359,13 +361,26 @@ func cmdCheck(args []string) int {
 			}
 		}
 		if !reproduced {
-			fmt.Fprintf(os.Stderr, "INFRA: replay file %s did not reproduce class %s in a fresh process:\n%s\n", v.Replay, v.Class, outb)
-			return 2
+			// remembered; fatal (exit 2) only if nothing else is confirmed
+			msg := fmt.Sprintf("replay file %s did not reproduce class %s in a fresh process:\n%s", v.Replay, v.Class, outb)
+			if infra == "" {
+				infra = msg
+			}
+			fmt.Fprintln(os.Stderr, "NOTE: "+msg)
+			continue
 		}
 		confirmed = append(confirmed, v)
 		fmt.Printf("VIOLATION property=%s replay=%s\n", v.Prop, v.Replay)
 		fmt.Printf("  class=%s seed=%d shrink_runs=%d\n  %s\n", v.Class, v.Seed, v.Shrunk, firstLines(v.Msg, 6))
 		exit = 1
+	}
+
+	if infra != "" {
+		if exit == 0 {
+			fmt.Fprintln(os.Stderr, "INFRA:", infra)
+			return 2
+		}
+		fmt.Fprintln(os.Stderr, "NOTE: infrastructure trouble in this run, not fatal because a violation was confirmed in a fresh process:", infra)
 	}
 
 	wall := time.Since(start).Seconds()
